@@ -198,7 +198,11 @@ impl<VM: VMBinding> BumpAllocator<VM> {
             return Address::ZERO;
         }
 
-        let block_size = (size + BLOCK_MASK) & (!BLOCK_MASK);
+        // The block must be able to hold the object plus the worst-case alignment padding,
+        // otherwise the allocation below fails again and we would acquire blocks forever.
+        let max_aligned_size =
+            crate::util::alloc::allocator::get_maximum_aligned_size::<VM>(size, align);
+        let block_size = (max_aligned_size + BLOCK_MASK) & (!BLOCK_MASK);
         let acquired_start = self.space.acquire(
             self.tls,
             bytes_to_pages_up(block_size),
